@@ -2,18 +2,24 @@
 # Regenerates MANIFEST.json from the table below (kept in one place so it stays valid).
 import json, subprocess
 claimed = {
+ "C03": ("choice-tree DFS over statement kinds (and ordered pairs) in front of a label x uses of the label/$ x ORG x BITS; sentinel-located real offsets vs embedded values and pass-1 table; per-kind defect model", "7/C03"),
+ "C04": ("choice-tree DFS over 32 branch mnemonics x every gap 0..140 (+-32768 boundary) x direction x target kind x ORG x BITS; reference decoder: cc, next+disp == real target, size", "7/C04"),
  "C02": ("choice-tree DFS over every 16/32-bit addressing shape x displacement x carrier x width x BITS; reference decoder, effective address compared as a linear form", "7/C02"),
  "C18": ("choice-tree DFS over ALU-imm/moffs/MOV-imm/PUSH-POP forms x registers x boundary immediates x BITS; length compared with the minimum over the reference encoder's valid encodings", "7/C18"),
  "C01": ("choice-tree DFS over mnemonic x operand form x every register x boundary immediates x BITS; reference x86 decoder (semantic tuple equality, facet by facet)", "7/C01"),
  "C05": ("choice-tree DFS over DB/DW/DD operand lists, RESB, ALIGNB x residue x ORG, non-emitting statements; directive reference model", "7/C05"),
 }
 texts = {
+ "C03": "Every statement kind of a 121-kind catalogue (one per size class) - and in the thorough tier every ordered pair - is placed in front of a label whose real address is located by a sentinel; seven kinds of use of the label and of $ are read back from the output and compared; pass-1 size vs emitted size is compared per kind. Label drift in longer programs is excused only when it equals the sum of the listed per-kind est/emit differences (defect model). Exhaustive within the catalogue and depth.",
+ "C04": "Each branch is decoded by the reference decoder at its sentinel-located position: the condition code must be the named one, address-of-next + displacement must equal the real target (label located by sentinel, or the literal number), no stray prefix, emitted length == pass-1 size. All 32 mnemonics x all gaps 0..140 forward and backward x label/numeric x 2 origins x 2 modes (thorough), plus +-32768 boundary gaps and far pointers.",
  "C02": "All 16-bit shapes and all 32-bit base x index x scale shapes (valid and invalid) x 14 boundary displacements x carrier instructions x widths x both modes are assembled by the real pipeline; the emitted prefix/ModRM/SIB/displacement is decoded by the reference decoder and the denoted address is compared, as a linear form modulo the address size, with the address written. Exhaustive within the stated alphabets.",
  "C18": "For every instruction of the stated space the emitted length is compared with the minimum over all valid encodings listed by an independent reference encoder (whose encodings are first verified to decode back). Exhaustive within the stated alphabets.",
  "C01": "Every cell of the stated product (all operand-less mnemonics, 9 two-operand operations x 3 widths x all register pairs, all 24 registers x boundary immediates, register/memory and memory/immediate forms, unary, shifts, segment/control moves, IN/OUT, PUSH/POP, IMUL, all 256 INT vectors, both modes) is assembled by the real pipeline and the bytes are decoded by an independent reference decoder and compared with the source's meaning (operation, registers in roles, operand size, immediate modulo width, effective address, prefixes, length). Exhaustive within the stated alphabets.",
  "C05": "Every operand list up to the stated length over a 27-item boundary alphabet (and rotations up to length 64), every RESB/ALIGNB/residue/ORG combination and every non-emitting statement is assembled by the real pipeline and compared byte for byte with a directive model; the location counter is compared with the emitted length. Exhaustive within the stated bounds.",
 }
 notes = {
+ "C03": "Trusted: sentinel framing (DB path verified by C05), x86ref decoder for instruction uses, the worker's view of pass-1 SymTable/LOC. Known findings: [lab] in memory operands encodes 0; per-kind size-estimate disagreements (branches, PUSH/POP FS/GS, INT 3, MOV CRn, PUSH imm16, IMUL imm, 32-bit addressing).",
+ "C04": "Trusted: x86ref decoder, sentinel framing. The branch machinery of the pinned tree is wrong in most cells outside short label-target jumps in 16-bit mode; those cells are listed as known findings by (mode, class, direction, target kind, gap) with exact deviations.",
  "C02": "Trusted: x86ref decoder and MemSpec linear-form comparison. Displacements that do not fit the address width are outside the model. Known findings: four root causes in calculateModRM (index-only, EBP base without displacement, 16-bit pairs in 32-bit mode, zero SIB byte).",
  "C18": "Trusted: x86ref encoder/decoder pair (26k pairs self-checked per run). Only statements that decode to the source instruction are judged.",
  "C01": "Trusted: x86ref decoder (written from the SDM opcode maps; self-checked; cross-checked against objdump where present). Statements gosk refuses with an error are not judged (DESIGN.md section 5). Known findings: the operand-less opcode table (pinned by a repository test).",
